@@ -1,5 +1,6 @@
 import QV.Shared.SchedFrames
 import QV.C24.Spec
+import QV.C23.Lemmas
 /-
 C24 — Frame conflicts are ordered and every frame edge is justified.
 Property theorems only; the invariants live in `QV.Shared.SchedLemmas` / `QV.Shared.SchedFrames`.
@@ -291,6 +292,14 @@ theorem C24_history (h : List Access) :
     (QInv.empty _ rfl (by simp [Queue.frameInit, Kind.isWrite]) _)
   simp only [List.nil_append] at this
   exact ⟨this.pw, this.ini ⟨.write, .start⟩ rfl⟩
+
+/-- **C24, queue level, exact (all use/block histories).** With `use ↦ write`, `block ↦ read`: at every step the
+frame queue reports exactly the most recent earlier user of the frame — the block start if there is none —
+plus, when the access is itself a use, every instruction that blocked the frame since that use. Blockers never
+depend on blockers. -/
+theorem C24_history_exact (h : List Access) :
+    C23.AllExact Queue.frameInit [] h (runHistory (QMap.empty Queue.frameInit) h).2 :=
+  C23.history_exact _ h _ [] (C23.Exact.empty _ rfl)
 
 /-! ### The Bool checker -/
 
